@@ -286,3 +286,294 @@ Proof.
   rewrite (update_at_compose (rname m :: q) (whole_file c0 m) (overwrite_in_parent data) f1 x (append_branch true data) E1).
   rewrite <- Hdn. exact Hu.
 Qed.
+
+(* ---------- an inner node together with an emdpath naming its own path or its parent's: the same merge at the node's path *)
+Lemma emd_target_enc c0 m p k : ok_tree m -> rwalk m p = Some k ->
+  Forall (fun s => s <> "" /\ no_slash s = true) p ->
+  emd_target (whole_file c0 m) (rname m) (join_slash p) = Ok (rname m :: p).
+Proof.
+  intros Hok Hw Hnames.
+  assert (Forall (fun s => no_slash s = true) p) as Hns by (eapply Forall_impl; [|exact Hnames]; cbn; intros a Ha; apply Ha).
+  assert (Forall (fun s => s <> "") p) as Hnn by (eapply Forall_impl; [|exact Hnames]; cbn; intros a Ha; apply Ha).
+  unfold emd_target, whole_file. cbn [olinks]. rewrite get_first. unfold validate_treepath.
+  destruct p as [|x q].
+  - cbn [join_slash]. change (split_slash "") with [""]. cbn [remove_first_empty String.eqb]. cbn [validate_names app]. reflexivity.
+  - rewrite (split_join (x :: q)) by (try discriminate; exact Hns). rewrite (remove_first_empty_none _ Hnn).
+    rewrite (validate_names_enc m Hok (x :: q) k [] Hw). reflexivity.
+Qed.
+
+Theorem inner_node_append_with_its_own_or_parent_emdpath c0 m root tp km data md tr ep_path :
+  In md appendmode -> tr <> Some false ->
+  rcls m = CRoot -> rname root = rname m -> rmds root = [] -> ok_tree m ->
+  tp <> [] -> rwalk m tp = Some km -> rwalk root tp = Some data -> compat km data ->
+  Forall (fun s => s <> "" /\ no_slash s = true) (rname m :: tp) ->
+  (ep_path = tp \/ ep_path = removelast tp) ->
+  exists f', append_existing root tp (WA md tr (Some (join_slash (rname m :: ep_path)))) md (whole_file c0 m) = Ok f' /\
+             lookup f' (rname m :: tp) = Some (enc (merge km data)) /\
+             (forall q, is_pref q (rname m :: tp) = false -> is_pref (rname m :: tp) q = false -> lookup f' q = lookup (whole_file c0 m) q).
+Proof.
+  intros Hmd Htr Hc Hname Hmds Hok Htp Hwm Hwr Hcompat Hnames Hep.
+  assert (mem md appendovermode = false) as Hao by (destruct Hmd as [<-|[<-|[<-|[]]]]; reflexivity).
+  pose proof (ok_tree_walk m Hok tp km Hwm) as Hokm.
+  assert (lookup (whole_file c0 m) (rname m :: tp) = Some (enc km)) as Hl.
+  { unfold whole_file. cbn [lookup]. rewrite get_first. apply lookup_enc; assumption. }
+  destruct (update_at_spec (rname m :: tp) (whole_file c0 m) (enc km) (append_branch false data) (enc (merge km data)) Hl (append_is_union km data Hokm Hcompat))
+    as (f' & Hu & Hl' & Hfr & _).
+  exists f'. split; [|split; [exact Hl'|exact Hfr]].
+  inversion Hnames as [|? ? (Hrne & Hrns) Hnp]; subst.
+  (* the emdpath target exists in the file *)
+  assert (exists kt, rwalk m ep_path = Some kt /\ Forall (fun s => s <> "" /\ no_slash s = true) ep_path) as (kt & Hwt & Hnt).
+  { destruct Hep as [->| ->]; [exists km; split; assumption|].
+    assert (exists q x, tp = q ++ [x]) as (q & x & ->) by (destruct (exists_last Htp) as (q & x & E); eauto).
+    rewrite removelast_last. apply Forall_app in Hnp. destruct Hnp as (Hq & _).
+    assert (exists pk, rwalk m q = Some pk) as (pk & Hpk).
+    { clear -Hwm. revert m Hwm. induction q as [|y q' IH]; intros m Hwm; [exists m; reflexivity|]. cbn [app rwalk] in *. destruct (rget (rkids m) y); [apply IH; exact Hwm|discriminate]. }
+    exists pk. split; assumption. }
+  assert (Forall (fun s => no_slash s = true) (rname m :: ep_path)) as Hns.
+  { constructor; [exact Hrns|]. eapply Forall_impl; [|exact Hnt]. cbn. intros a Ha. apply Ha. }
+  unfold append_existing. rewrite Hwr. cbn [emdpath tree].
+  rewrite (rootgroups_whole c0 m Hc). rewrite Hname. cbn [mem]. rewrite String.eqb_refl.
+  assert (join_slash (rname m :: ep_path) <> "") as Hjne.
+  { destruct (rname m) as [|c1 r1] eqn:E; [congruence|]. destruct ep_path; cbn [join_slash String.append]; discriminate. }
+  assert ((match join_slash (rname m :: ep_path) with "" => true | String _ _ => false end) = false) as -> by (destruct (join_slash (rname m :: ep_path)); [congruence|reflexivity]).
+  rewrite (parse_emdpath_join (rname m) ep_path Hrne Hns). rewrite Hao.
+  rewrite (emd_target_enc c0 m ep_path kt Hok Hwt Hnt). cbn [bind]. rewrite Hmds.
+  assert (in_child (rname m) (append_root_metadata false []) (whole_file c0 m) = Ok (whole_file c0 m)) as ->.
+  { unfold in_child, whole_file. cbn [update_at]. rewrite get_first. cbn [update_at append_root_metadata bind set]. rewrite String.eqb_refl. reflexivity. }
+  cbn [bind tl].
+  assert ((match tp with [] => true | _ :: _ => false end) = false) as -> by (destruct tp; [congruence|reflexivity]).
+  assert (get (olinks (whole_file c0 m)) (rname m) = Some (enc m)) as -> by (unfold whole_file; cbn [olinks]; apply get_first).
+  rewrite (validate_names_enc m Hok tp km [] Hwm). cbn [app].
+  destruct Hep as [->| ->].
+  - (* the emdpath names the node itself *)
+    rewrite path_eqb_refl. unfold ow_and_branch.
+    destruct tr as [[|]|]; [cbn [bind]; exact Hu|congruence|cbn [bind]; exact Hu].
+  - (* the emdpath names the parent: it holds a node of that name *)
+    assert (exists q x, tp = q ++ [x]) as (q & x & Etp) by (destruct (exists_last Htp) as (q & x & E); eauto).
+    rewrite Etp. rewrite removelast_last.
+    assert (path_eqb (q ++ [x]) q = false) as ->.
+    { clear. induction q as [|y q' IH]; [reflexivity|]. cbn. rewrite String.eqb_refl. exact IH. }
+    assert (lookup (whole_file c0 m) (rname m :: q) = Some (enc kt)) as Hlt.
+    { unfold whole_file. cbn [lookup]. rewrite get_first. apply lookup_enc; [exact Hok|]. rewrite Etp, removelast_last in Hwt. exact Hwt. }
+    rewrite Hlt.
+    assert (has (olinks (enc kt)) (last_name (rname m :: q ++ [x])) = true) as ->.
+    { assert (last_name (rname m :: q ++ [x]) = x) as -> by (unfold last_name; change (rname m :: q ++ [x]) with ((rname m :: q) ++ [x]); apply last_last).
+      rewrite Etp, removelast_last in Hwt. rewrite Etp in Hwm.
+      assert (rget (rkids kt) x = Some km) as Hkx.
+      { clear -Hwt Hwm. revert m Hwt Hwm. induction q as [|y q' IH]; intros m Hwt Hwm.
+        - injection Hwt as <-. cbn [app rwalk] in Hwm. destruct (rget (rkids m) x); [injection Hwm as <-; reflexivity|discriminate].
+        - cbn [app rwalk] in *. destruct (rget (rkids m) y) as [kid|]; [|discriminate]. apply (IH kid Hwt Hwm). }
+      unfold has. rewrite enc_links'. assert (get (shallow_links kt ++ enc_kids (rkids kt)) x <> None) as Hne.
+      { intros Hn. apply get_none_notin in Hn. apply Hn. rewrite keys_app, keys_enc_kids. apply in_or_app. right. apply rget_in in Hkx. destruct Hkx as (Hin & <-). apply in_map. exact Hin. }
+      destruct (get (shallow_links kt ++ enc_kids (rkids kt)) x); [reflexivity|congruence]. }
+    rewrite <- Etp. unfold ow_and_branch.
+    destruct tr as [[|]|]; [cbn [bind]; exact Hu|congruence|cbn [bind]; exact Hu].
+Qed.
+
+(* for every mode and every tree flag: an emdpath naming the inner node's own place, or its parent, changes nothing *)
+Theorem inner_node_emdpath_to_itself_or_parent_is_redundant c0 m root tp km data md tr ep_path :
+  rcls m = CRoot -> rname root = rname m -> rmds root = [] -> ok_tree m ->
+  tp <> [] -> rwalk m tp = Some km -> rwalk root tp = Some data ->
+  Forall (fun s => s <> "" /\ no_slash s = true) (rname m :: tp) ->
+  (ep_path = tp \/ ep_path = removelast tp) ->
+  append_existing root tp (WA md tr (Some (join_slash (rname m :: ep_path)))) md (whole_file c0 m)
+  = append_existing root tp (WA md tr None) md (whole_file c0 m).
+Proof.
+  intros Hc Hname Hmds Hok Htp Hwm Hwr Hnames Hep.
+  inversion Hnames as [|? ? (Hrne & Hrns) Hnp]; subst.
+  assert (exists kt, rwalk m ep_path = Some kt /\ Forall (fun s => s <> "" /\ no_slash s = true) ep_path) as (kt & Hwt & Hnt).
+  { destruct Hep as [->| ->]; [exists km; split; assumption|].
+    assert (exists q x, tp = q ++ [x]) as (q & x & ->) by (destruct (exists_last Htp) as (q & x & E); eauto).
+    rewrite removelast_last. apply Forall_app in Hnp. destruct Hnp as (Hq & _).
+    assert (exists pk, rwalk m q = Some pk) as (pk & Hpk).
+    { clear -Hwm. revert m Hwm. induction q as [|y q' IH]; intros m Hwm; [exists m; reflexivity|]. cbn [app rwalk] in *. destruct (rget (rkids m) y); [apply IH; exact Hwm|discriminate]. }
+    exists pk. split; assumption. }
+  assert (Forall (fun s => no_slash s = true) (rname m :: ep_path)) as Hns.
+  { constructor; [exact Hrns|]. eapply Forall_impl; [|exact Hnt]. cbn. intros a Ha. apply Ha. }
+  unfold append_existing. rewrite Hwr. cbn [emdpath tree].
+  rewrite (rootgroups_whole c0 m Hc). rewrite Hname. cbn [mem]. rewrite String.eqb_refl.
+  assert (join_slash (rname m :: ep_path) <> "") as Hjne.
+  { destruct (rname m) as [|c1 r1] eqn:E; [congruence|]. destruct ep_path; cbn [join_slash String.append]; discriminate. }
+  assert ((match join_slash (rname m :: ep_path) with "" => true | String _ _ => false end) = false) as -> by (destruct (join_slash (rname m :: ep_path)); [congruence|reflexivity]).
+  rewrite (parse_emdpath_join (rname m) ep_path Hrne Hns).
+  rewrite (emd_target_enc c0 m ep_path kt Hok Hwt Hnt). cbn [bind]. rewrite Hmds.
+  assert (in_child (rname m) (append_root_metadata (mem md appendovermode) []) (whole_file c0 m) = Ok (whole_file c0 m)) as ->.
+  { unfold in_child, whole_file. cbn [update_at]. rewrite get_first. destruct (mem md appendovermode); cbn [update_at append_root_metadata bind set]; rewrite String.eqb_refl; reflexivity. }
+  cbn [bind tl].
+  assert ((match tp with [] => true | _ :: _ => false end) = false) as -> by (destruct tp; [congruence|reflexivity]).
+  assert (get (olinks (whole_file c0 m)) (rname m) = Some (enc m)) as -> by (unfold whole_file; cbn [olinks]; apply get_first).
+  rewrite (validate_names_enc m Hok tp km [] Hwm). cbn [app].
+  assert (forall f h, ow_and_branch f h data tp (mem md appendovermode) tr =
+            match tr with
+            | Some true => ow_and_branch f h data tp (mem md appendovermode) (Some true)
+            | Some false => if mem md appendovermode then overwrite_at f h data tp else Ok f
+            | None => update_at f h (append_branch (mem md appendovermode) data)
+            end) as Hshape.
+  { intros f h. unfold ow_and_branch. destruct tr as [[|]|]; [reflexivity| |reflexivity].
+    destruct (mem md appendovermode); [|reflexivity]. destruct (overwrite_at f h data tp); reflexivity. }
+  destruct Hep as [->| ->].
+  - rewrite path_eqb_refl. apply Hshape.
+  - assert (exists q x, tp = q ++ [x]) as (q & x & Etp) by (destruct (exists_last Htp) as (q & x & E); eauto).
+    rewrite Etp. rewrite removelast_last.
+    assert (path_eqb (q ++ [x]) q = false) as ->.
+    { clear. induction q as [|y q' IH]; [reflexivity|]. cbn. rewrite String.eqb_refl. exact IH. }
+    assert (lookup (whole_file c0 m) (rname m :: q) = Some (enc kt)) as Hlt.
+    { unfold whole_file. cbn [lookup]. rewrite get_first. apply lookup_enc; [exact Hok|]. rewrite Etp, removelast_last in Hwt. exact Hwt. }
+    rewrite Hlt.
+    assert (has (olinks (enc kt)) (last_name (rname m :: q ++ [x])) = true) as ->.
+    { assert (last_name (rname m :: q ++ [x]) = x) as -> by (unfold last_name; change (rname m :: q ++ [x]) with ((rname m :: q) ++ [x]); apply last_last).
+      rewrite Etp, removelast_last in Hwt. rewrite Etp in Hwm.
+      assert (rget (rkids kt) x = Some km) as Hkx.
+      { clear -Hwt Hwm. revert m Hwt Hwm. induction q as [|y q' IH]; intros m Hwt Hwm.
+        - injection Hwt as <-. cbn [app rwalk] in Hwm. destruct (rget (rkids m) x); [injection Hwm as <-; reflexivity|discriminate].
+        - cbn [app rwalk] in *. destruct (rget (rkids m) y) as [kid|]; [|discriminate]. apply (IH kid Hwt Hwm). }
+      unfold has. rewrite enc_links'. assert (get (shallow_links kt ++ enc_kids (rkids kt)) x <> None) as Hne.
+      { intros Hn. apply get_none_notin in Hn. apply Hn. rewrite keys_app, keys_enc_kids. apply in_or_app. right. apply rget_in in Hkx. destruct Hkx as (Hin & <-). apply in_map. exact Hin. }
+      destruct (get (shallow_links kt ++ enc_kids (rkids kt)) x); [reflexivity|congruence]. }
+    rewrite <- Etp. apply Hshape.
+Qed.
+
+(* ---------- an inner node with an emdpath naming a file node BELOW it: the runtime node at that place is merged there *)
+Lemma is_prefix_app (a b : path) : is_prefix a (a ++ b) = Some b.
+Proof. induction a as [|x q IH]; [reflexivity|]. cbn [app is_prefix]. rewrite String.eqb_refl. exact IH. Qed.
+Lemma path_eqb_app_false (a b : path) : b <> [] -> path_eqb a (a ++ b) = false.
+Proof. intros Hb. induction a as [|x q IH]; cbn [app path_eqb]; [destruct b; [congruence|reflexivity]|]. rewrite String.eqb_refl. exact IH. Qed.
+
+Theorem inner_node_with_an_emdpath_below_it c0 m root tp rel km kt data d2 md tr :
+  In md appendmode -> tr <> Some false ->
+  rcls m = CRoot -> rname root = rname m -> rmds root = [] -> ok_tree m ->
+  tp <> [] -> rel <> [] -> rwalk m tp = Some km -> rwalk m (tp ++ rel) = Some kt ->
+  rwalk root tp = Some data -> rwalk data rel = Some d2 -> compat kt d2 ->
+  get (olinks (enc kt)) (last tp "") = None ->
+  Forall (fun s => s <> "" /\ no_slash s = true) (rname m :: tp ++ rel) ->
+  exists f', append_existing root tp (WA md tr (Some (join_slash (rname m :: tp ++ rel)))) md (whole_file c0 m) = Ok f' /\
+             lookup f' (rname m :: tp ++ rel) = Some (enc (merge kt d2)) /\
+             (forall q, is_pref q (rname m :: tp ++ rel) = false -> is_pref (rname m :: tp ++ rel) q = false -> lookup f' q = lookup (whole_file c0 m) q).
+Proof.
+  intros Hmd Htr Hc Hname Hmds Hok Htp Hrel Hwm Hwt Hwr Hwd Hcompat Hnolink Hnames.
+  assert (mem md appendovermode = false) as Hao by (destruct Hmd as [<-|[<-|[<-|[]]]]; reflexivity).
+  pose proof (ok_tree_walk m Hok (tp ++ rel) kt Hwt) as Hokt.
+  assert (lookup (whole_file c0 m) (rname m :: tp ++ rel) = Some (enc kt)) as Hl.
+  { unfold whole_file. cbn [lookup]. rewrite get_first. apply lookup_enc; assumption. }
+  destruct (update_at_spec (rname m :: tp ++ rel) (whole_file c0 m) (enc kt) (append_branch false d2) (enc (merge kt d2)) Hl (append_is_union kt d2 Hokt Hcompat))
+    as (f' & Hu & Hl' & Hfr & _).
+  exists f'. split; [|split; [exact Hl'|exact Hfr]].
+  inversion Hnames as [|? ? (Hrne & Hrns) Hnp]; subst.
+  assert (Forall (fun s => no_slash s = true) (rname m :: tp ++ rel)) as Hns.
+  { constructor; [exact Hrns|]. eapply Forall_impl; [|exact Hnp]. cbn. intros a Ha. apply Ha. }
+  unfold append_existing. rewrite Hwr. cbn [emdpath tree].
+  rewrite (rootgroups_whole c0 m Hc). rewrite Hname. cbn [mem]. rewrite String.eqb_refl.
+  assert (join_slash (rname m :: tp ++ rel) <> "") as Hjne.
+  { destruct (rname m) as [|c1 r1] eqn:E; [congruence|]. destruct (tp ++ rel); cbn [join_slash String.append]; discriminate. }
+  assert ((match join_slash (rname m :: tp ++ rel) with "" => true | String _ _ => false end) = false) as -> by (destruct (join_slash (rname m :: tp ++ rel)); [congruence|reflexivity]).
+  rewrite (parse_emdpath_join (rname m) (tp ++ rel) Hrne Hns). rewrite Hao.
+  rewrite (emd_target_enc c0 m (tp ++ rel) kt Hok Hwt Hnp). cbn [bind]. rewrite Hmds.
+  assert (in_child (rname m) (append_root_metadata false []) (whole_file c0 m) = Ok (whole_file c0 m)) as ->.
+  { unfold in_child, whole_file. cbn [update_at]. rewrite get_first. cbn [update_at append_root_metadata bind set]. rewrite String.eqb_refl. reflexivity. }
+  cbn [bind tl].
+  assert ((match tp with [] => true | _ :: _ => false end) = false) as -> by (destruct tp; [congruence|reflexivity]).
+  assert (get (olinks (whole_file c0 m)) (rname m) = Some (enc m)) as -> by (unfold whole_file; cbn [olinks]; apply get_first).
+  rewrite (validate_names_enc m Hok tp km [] Hwm). cbn [app].
+  rewrite (path_eqb_app_false tp rel Hrel). rewrite Hl.
+  assert (last_name (rname m :: tp) = last tp "") as ->.
+  { unfold last_name. destruct tp as [|x q]; [congruence|]. reflexivity. }
+  unfold has. rewrite Hnolink. rewrite is_prefix_app. rewrite Hwd.
+  unfold ow_and_branch. destruct tr as [[|]|]; [cbn [bind]; exact Hu|congruence|cbn [bind]; exact Hu].
+Qed.
+
+(* ---------- every save that moves its data to an emdpath target inside the same tree IS the save of the inner node found
+   there, without an emdpath -- for every mode and every tree flag *)
+Lemma ow_shape f h data tp ao tr :
+  ow_and_branch f h data tp ao tr =
+  match tr with
+  | Some true => ow_and_branch f h data tp ao (Some true)
+  | Some false => if ao then overwrite_at f h data tp else Ok f
+  | None => update_at f h (append_branch ao data)
+  end.
+Proof.
+  unfold ow_and_branch. destruct tr as [[|]|]; [reflexivity| |reflexivity].
+  destruct ao; [|reflexivity]. destruct (overwrite_at f h data tp); reflexivity.
+Qed.
+
+Lemma rwalk_app' r : forall p q d, rwalk r p = Some d -> rwalk r (p ++ q) = rwalk d q.
+Proof.
+  intros p. revert r. induction p as [|x p' IH]; intros r q d H; [injection H as <-; reflexivity|].
+  cbn [app rwalk] in *. destruct (rget (rkids r) x) as [kid|]; [apply IH; exact H|discriminate].
+Qed.
+
+Lemma inner_save_shape c0 m root p km d2 md tr :
+  rcls m = CRoot -> rname root = rname m -> rmds root = [] -> ok_tree m -> p <> [] ->
+  rwalk m p = Some km -> rwalk root p = Some d2 ->
+  append_existing root p (WA md tr None) md (whole_file c0 m)
+  = ow_and_branch (whole_file c0 m) (rname m :: p) d2 p (mem md appendovermode) tr.
+Proof.
+  intros Hc Hname Hmds Hok Hp Hwm Hwr. unfold append_existing. rewrite Hwr. cbn [emdpath tree].
+  rewrite (rootgroups_whole c0 m Hc). rewrite Hname. cbn [mem]. rewrite String.eqb_refl. rewrite Hmds.
+  assert (in_child (rname m) (append_root_metadata (mem md appendovermode) []) (whole_file c0 m) = Ok (whole_file c0 m)) as ->.
+  { unfold in_child, whole_file. cbn [update_at]. rewrite get_first. destruct (mem md appendovermode); cbn [update_at append_root_metadata bind set]; rewrite String.eqb_refl; reflexivity. }
+  cbn [bind].
+  assert ((match p with [] => true | _ :: _ => false end) = false) as -> by (destruct p; [congruence|reflexivity]).
+  assert (get (olinks (whole_file c0 m)) (rname m) = Some (enc m)) as -> by (unfold whole_file; cbn [olinks]; apply get_first).
+  rewrite (validate_names_enc m Hok p km [] Hwm). cbn [app]. symmetry. apply ow_shape.
+Qed.
+
+Theorem whole_tree_at_an_emdpath_is_the_inner_node_save c0 m root p km d2 md tr :
+  rcls m = CRoot -> rname root = rname m -> rmds root = [] -> ok_tree m -> p <> [] ->
+  rwalk m p = Some km -> rwalk root p = Some d2 ->
+  Forall (fun s => s <> "" /\ no_slash s = true) (rname m :: p) ->
+  append_existing root [] (WA md tr (Some (join_slash (rname m :: p)))) md (whole_file c0 m)
+  = append_existing root p (WA md tr None) md (whole_file c0 m).
+Proof.
+  intros Hc Hname Hmds Hok Hp Hwm Hwr Hnames.
+  rewrite (inner_save_shape c0 m root p km d2 md tr Hc Hname Hmds Hok Hp Hwm Hwr).
+  inversion Hnames as [|? ? (Hrne & Hrns) Hnp]; subst.
+  assert (Forall (fun s => no_slash s = true) (rname m :: p)) as Hns.
+  { constructor; [exact Hrns|]. eapply Forall_impl; [|exact Hnp]. cbn. intros a Ha. apply Ha. }
+  unfold append_existing. cbn [rwalk emdpath tree].
+  rewrite (rootgroups_whole c0 m Hc). rewrite Hname. cbn [mem]. rewrite String.eqb_refl.
+  assert (join_slash (rname m :: p) <> "") as Hjne.
+  { destruct (rname m) as [|c1 r1] eqn:E; [congruence|]. destruct p; cbn [join_slash String.append]; discriminate. }
+  assert ((match join_slash (rname m :: p) with "" => true | String _ _ => false end) = false) as -> by (destruct (join_slash (rname m :: p)); [congruence|reflexivity]).
+  rewrite (parse_emdpath_join (rname m) p Hrne Hns).
+  rewrite (emd_target_enc c0 m p km Hok Hwm Hnp). cbn [bind]. rewrite Hmds.
+  assert (in_child (rname m) (append_root_metadata (mem md appendovermode) []) (whole_file c0 m) = Ok (whole_file c0 m)) as ->.
+  { unfold in_child, whole_file. cbn [update_at]. rewrite get_first. destruct (mem md appendovermode); cbn [update_at append_root_metadata bind set]; rewrite String.eqb_refl; reflexivity. }
+  cbn [bind tl]. rewrite Hwr. reflexivity.
+Qed.
+
+Theorem inner_node_at_an_emdpath_below_it_is_the_save_of_the_node_there c0 m root tp rel km kt data d2 md tr :
+  rcls m = CRoot -> rname root = rname m -> rmds root = [] -> ok_tree m ->
+  tp <> [] -> rel <> [] -> rwalk m tp = Some km -> rwalk m (tp ++ rel) = Some kt ->
+  rwalk root tp = Some data -> rwalk data rel = Some d2 ->
+  get (olinks (enc kt)) (last tp "") = None ->
+  Forall (fun s => s <> "" /\ no_slash s = true) (rname m :: tp ++ rel) ->
+  append_existing root tp (WA md tr (Some (join_slash (rname m :: tp ++ rel)))) md (whole_file c0 m)
+  = append_existing root (tp ++ rel) (WA md tr None) md (whole_file c0 m).
+Proof.
+  intros Hc Hname Hmds Hok Htp Hrel Hwm Hwt Hwr Hwd Hnolink Hnames.
+  assert (rwalk root (tp ++ rel) = Some d2) as Hwr2 by (rewrite (rwalk_app' root tp rel data Hwr); exact Hwd).
+  assert (tp ++ rel <> []) as Hne by (destruct tp; [congruence|discriminate]).
+  rewrite (inner_save_shape c0 m root (tp ++ rel) kt d2 md tr Hc Hname Hmds Hok Hne Hwt Hwr2).
+  inversion Hnames as [|? ? (Hrne & Hrns) Hnp]; subst.
+  assert (Forall (fun s => no_slash s = true) (rname m :: tp ++ rel)) as Hns.
+  { constructor; [exact Hrns|]. eapply Forall_impl; [|exact Hnp]. cbn. intros a Ha. apply Ha. }
+  assert (lookup (whole_file c0 m) (rname m :: tp ++ rel) = Some (enc kt)) as Hl.
+  { unfold whole_file. cbn [lookup]. rewrite get_first. apply lookup_enc; assumption. }
+  unfold append_existing. rewrite Hwr. cbn [emdpath tree].
+  rewrite (rootgroups_whole c0 m Hc). rewrite Hname. cbn [mem]. rewrite String.eqb_refl.
+  assert (join_slash (rname m :: tp ++ rel) <> "") as Hjne.
+  { destruct (rname m) as [|c1 r1] eqn:E; [congruence|]. destruct (tp ++ rel); cbn [join_slash String.append]; discriminate. }
+  assert ((match join_slash (rname m :: tp ++ rel) with "" => true | String _ _ => false end) = false) as -> by (destruct (join_slash (rname m :: tp ++ rel)); [congruence|reflexivity]).
+  rewrite (parse_emdpath_join (rname m) (tp ++ rel) Hrne Hns).
+  rewrite (emd_target_enc c0 m (tp ++ rel) kt Hok Hwt Hnp). cbn [bind]. rewrite Hmds.
+  assert (in_child (rname m) (append_root_metadata (mem md appendovermode) []) (whole_file c0 m) = Ok (whole_file c0 m)) as ->.
+  { unfold in_child, whole_file. cbn [update_at]. rewrite get_first. destruct (mem md appendovermode); cbn [update_at append_root_metadata bind set]; rewrite String.eqb_refl; reflexivity. }
+  cbn [bind tl].
+  assert ((match tp with [] => true | _ :: _ => false end) = false) as -> by (destruct tp; [congruence|reflexivity]).
+  assert (get (olinks (whole_file c0 m)) (rname m) = Some (enc m)) as -> by (unfold whole_file; cbn [olinks]; apply get_first).
+  rewrite (validate_names_enc m Hok tp km [] Hwm). cbn [app].
+  rewrite (path_eqb_app_false tp rel Hrel). rewrite Hl.
+  assert (last_name (rname m :: tp) = last tp "") as ->.
+  { unfold last_name. destruct tp as [|x q]; [congruence|]. reflexivity. }
+  unfold has. rewrite Hnolink. rewrite is_prefix_app. rewrite Hwd. reflexivity.
+Qed.
